@@ -24,6 +24,8 @@ class C07(WigBedProp):
         for k in range(n):
             r = rng.fork(k)
             names, sizes, data, tags = self.gen_input(r)
+            if not self.bed and r.chance(1, 4):
+                bbgen.inject_zero_length_wig(r, names, sizes, data, tags)
             o = bbgen.gen_options(r, tier, zoom_mode=r.choice(["manual", "manual", "manual", "autosmall"]))
             o["ips"] = r.choice([1, 2, 3, 1024])
             if r.chance(1, 12):
